@@ -61,6 +61,8 @@ pub const GAMMA: &[&str] = &[
     "a", "z", "A", "Z", "_", "0", "1", "9", "e", "E", "x", "$", "%", "&", "#", "'", "\"", "{", "}",
     "(", ")", "*", "/", ".", ":", "=", "<", ">", "+", "-", ",", ";", "[", "]", "^", "@", "?", " ",
     "\t", "\n", "\r", "\u{1}", "\u{7f}", "é", "日", "\u{3000}", "😀",
+    // neighbours of the one non-ASCII blank and Unicode spaces that are NOT Delphi blanks
+    "\u{3001}", "\u{2fff}", "\u{a0}", "\u{2003}",
 ];
 
 /// number of strings of length <= k over an alphabet of n symbols
@@ -152,5 +154,90 @@ impl Chars {
             buf.push_str(GAMMA[*t]);
         }
         toks.len()
+    }
+}
+
+/// a reduced token alphabet for longer soups: structure-bearing keywords and punctuation
+pub const SIGMA_SMALL: &[&str] = &[
+    "a", "1", "'s'", ";", ",", ":", ":=", "=", "<", ">", "(", ")", "[", "]", "^", ".", "+",
+    "begin", "end", "if", "then", "else", "case", "of", "for", "do", "try", "except", "with",
+    "raise", "type", "const", "var", "class", "record", "property", "procedure", "function",
+    "read", "index", "private", "strict", "interface", "uses", "asm", "{$ifdef A}", "{$else}",
+    "{$endif}", "//c\n", "{c}",
+];
+
+/// Words for the identifier-scanner family: every length 1..=max_len at every alignment
+/// 0..=max_align, followed by each delimiter class, with a special character at every position.
+pub struct Words {
+    pub max_len: usize,
+    pub max_align: usize,
+}
+pub const WORD_DELIMS: &[&str] = &["", " ", ";", ".", "(", "'", "{", "\n", "\u{3000}", "é", "#", "&", "\u{1}", "\u{3001}"];
+/// (placement kind) 0 = plain ascii word; 1.. = special char kinds placed at a position
+pub const WORD_SPECIALS: &[&str] = &["é", "日", "\u{3000}", "9", "_", "😀", "\u{3001}", "Z"];
+pub const WORD_ALIGNS_SPECIAL: &[usize] = &[0, 1, 7, 31, 32, 33];
+impl Words {
+    /// (A) plain words: len x align x delim x prefix kind; (B) one special char at every position:
+    /// len x 6 alignments x special x position (delimiter " ")
+    fn count_a(&self) -> u64 {
+        self.max_len as u64 * (self.max_align as u64 + 1) * WORD_DELIMS.len() as u64 * 2
+    }
+    fn count_b(&self) -> u64 {
+        let positions: u64 = (1..=self.max_len as u64).sum();
+        positions * WORD_ALIGNS_SPECIAL.len() as u64 * WORD_SPECIALS.len() as u64
+    }
+    pub fn len(&self) -> u64 {
+        self.count_a() + self.count_b()
+    }
+    /// returns the byte offset at which the word starts
+    pub fn get(&self, mut idx: u64, buf: &mut String) -> usize {
+        let letters = b"abcdefghijklmnopqrstuvwxyz";
+        buf.clear();
+        if idx < self.count_a() {
+            let prefix_kind = (idx % 2) as usize;
+            idx /= 2;
+            let nd = WORD_DELIMS.len() as u64;
+            let delim = WORD_DELIMS[(idx % nd) as usize];
+            idx /= nd;
+            let na = self.max_align as u64 + 1;
+            let align = (idx % na) as usize;
+            idx /= na;
+            let l = idx as usize + 1;
+            for k in 0..align {
+                buf.push(if prefix_kind == 0 { ' ' } else if k % 2 == 0 { ';' } else { ' ' });
+            }
+            for k in 0..l {
+                buf.push(letters[k % 26] as char);
+            }
+            buf.push_str(delim);
+            buf.push('x');
+            return align;
+        }
+        idx -= self.count_a();
+        let ns = WORD_SPECIALS.len() as u64;
+        let sp = WORD_SPECIALS[(idx % ns) as usize];
+        idx /= ns;
+        let na = WORD_ALIGNS_SPECIAL.len() as u64;
+        let align = WORD_ALIGNS_SPECIAL[(idx % na) as usize];
+        idx /= na;
+        // idx enumerates (len, pos) with pos < len
+        let mut l = 1usize;
+        while idx >= l as u64 {
+            idx -= l as u64;
+            l += 1;
+        }
+        let pos = idx as usize;
+        for _ in 0..align {
+            buf.push(' ');
+        }
+        for k in 0..l {
+            if k == pos {
+                buf.push_str(sp);
+            } else {
+                buf.push(letters[k % 26] as char);
+            }
+        }
+        buf.push_str(" x");
+        align
     }
 }
